@@ -395,7 +395,7 @@ def _is_eq_helper(fn):
     v = rets[-1].value
     parts = v.values if isinstance(v, ast.BoolOp) and isinstance(v.op, ast.And) else [v]
     return any(isinstance(p, ast.Compare) and len(p.ops) == 1 and isinstance(p.ops[0], ast.Eq) and
-               {dotted(p.left), dotted(p.comparators[0])} == set(ps) for p in parts) and len(fn.body) <= 3
+               {dotted(p.left), dotted(p.comparators[0])} == set(ps) for p in parts) and len(fn.body) <= 8
 
 
 def _discriminates_types(repo, cg, fn):
